@@ -398,6 +398,10 @@ func (u *UniqueIdentifier) unpack(buf []byte, pos int) error {
 		return errUnexpectedExtHdrType
 	}
 	valueLen := u.extHdr.Length - 4
+	if valueLen < 32 {
+		// see RFC 8915, section 5.3; a shorter identifier cannot be echoed
+		return errShortUniqueID
+	}
 	id := make([]byte, valueLen)
 	copy(id, buf[pos:])
 	u.ID = id
